@@ -1,4 +1,5 @@
 """C08 — ExponentiatedGradient meets the saddle-point guarantees certified by best_gap_."""
+import json
 import logging
 import math
 from fractions import Fraction as F
@@ -6,6 +7,7 @@ from fractions import Fraction as F
 import numpy as np
 import pandas as pd
 
+from .. import egreplay
 from .. import proto
 from .. import redoracle as ro
 from ..core import Check, Problem, register
@@ -30,7 +32,38 @@ PINNED = {
     "L_high": "if max_constraint > 0:\n    L_high += self.B * max_constraint",
     "improves": "h_value < best_value - _PRECISION",
 }
+PINNED_LOOP = json.loads(r"""{"init": {"theta": "pd.Series(0, lagrangian.constraints.index)", "Qsum": "pd.Series(dtype='float64')", "gaps_EG": "[]", "gaps": "[]", "Qs": "[]", "last_regret_checked": "_REGRET_CHECK_START_T", "last_gap": "np.inf", "self.lambda_vecs_EG_": "pd.DataFrame()", "self.lambda_vecs_LP_": "pd.DataFrame()"}, "lambda_vec": "B * np.exp(theta) / (1 + np.exp(theta).sum())", "lambda_EG": "self.lambda_vecs_EG_.mean(axis=1)", "Qsum": ["Qsum.at[h_idx] = 0.0", "Qsum[h_idx] += 1.0"], "Q_EG": "Qsum / Qsum.sum()", "eta": "self.eta0 / B", "skipLP": "t == 0 or not self.run_linprog_step", "regretDue": "t >= last_regret_checked * _REGRET_CHECK_INCREASE_T", "shrinkDue": "best_gap > last_gap * _SHRINK_REGRET", "shrink": "eta *= _SHRINK_ETA", "theta": "theta += eta * (gamma - self.constraints.bound())", "last_iter": "len(Qs) - 1", "evalBreak": "result.gap() > nu + _PRECISION", "h_value": "h_error + h_gamma.dot(lambda_vec)", "best_h": ["values = self.errors + self.gammas.transpose().dot(lambda_vec)", "best_idx = values.idxmin()", "best_value = values[best_idx]", "best_idx = -1", "best_value = np.inf"]}""")
+PINNED_LP = json.loads(r"""{"c": "np.concatenate((self.errors, [self.B]))", "A_ub": "np.concatenate((self.gammas.sub(self.constraints.bound(), axis=0), -np.ones((n_constraints, 1))), axis=1)", "b_ub": "np.zeros(n_constraints)", "A_eq": "np.concatenate((np.ones((1, n_hs)), np.zeros((1, 1))), axis=1)", "b_eq": "np.ones(1)", "dual_c": "np.concatenate((b_ub, -b_eq))", "dual_A_ub": "np.concatenate((-A_ub.transpose(), A_eq.transpose()), axis=1)", "dual_bounds": "[(None, None) if i == n_constraints else (0, None) for i in range(n_constraints + 1)]", "cache": "self.last_linprog_n_hs == n_hs"}""")
 _LIFTED = {}
+_RP = {}
+
+
+def loop_replay(case, o):
+    """exact replay of the main loop on the recorded answers (cached per implementation output object)"""
+    ent = _RP.get(id(o))
+    if ent is not None and ent[0] is o:
+        return ent[1]
+    P, H, errs, gams = table_of(case)
+    try:
+        rp = egreplay.run_replay(case, o, P, H, errs, gams)
+    except (ValueError, IndexError, KeyError, ZeroDivisionError) as e:      # a trace that is not of the recorded shape
+        rp = None
+        o["_replay_error"] = repr(e)[:200]
+    if len(_RP) > 512:
+        _RP.clear()
+    _RP[id(o)] = (o, rp)
+    return rp
+
+
+def loop_observables(case, o, P, H, errs):
+    idx = [tuple(k) for k in o["lam_index"]]
+    perm = [idx.index(k) for k in P.index]
+    o2 = dict(o)
+    o2["lam_cols"] = [[c[j] for j in perm] for c in o["lam_cols_raw"]]
+    o2["lam_lp_cols"] = {t: [c[j] for j in perm] for t, c in o["lam_lp_raw"].items()}
+    o2["weights_by_idx"] = o["weights"]
+    o2["stored_errs"] = [float(errs[H.index(tuple(lab))]) for lab in o["predictors"]]
+    return o2
 
 
 def lifted_changes():
@@ -38,8 +71,13 @@ def lifted_changes():
     if "v" not in _LIFTED:
         from .. import core, translate
         try:
-            meta = translate.run(core.REPO).get("EGGen.lean", {})
-            _LIFTED["v"] = sorted(k for k in PINNED if meta.get(k) != PINNED[k])
+            info = translate.run(core.REPO)
+            meta = info.get("EGGen.lean", {})
+            ch = sorted(k for k in PINNED if meta.get(k) != PINNED[k])
+            for fn, pinned in (("EGLoopGen.lean", PINNED_LOOP), ("LinProgGen.lean", PINNED_LP)):
+                m = info.get(fn, {})
+                ch += sorted(f"{fn}:{k}" for k in pinned if json.loads(json.dumps(m.get(k))) != pinned[k])
+            _LIFTED["v"] = ch
         except translate.Untranslatable as e:
             _LIFTED["v"] = ["untranslatable: " + str(e)[:120]]
     return _LIFTED["v"]
@@ -213,11 +251,13 @@ class CHECK(Check):
         from sklearn.dummy import DummyClassifier
         X, y, sf = containers(case)
         eg = red.ExponentiatedGradient(
-            ExactLearner(case["kind"]), mk_moment(case), eps=float(F(case["eps"])), max_iter=case["max_iter"],
+            egreplay.TraceLearner(case["kind"]), mk_moment(case), eps=float(F(case["eps"])), max_iter=case["max_iter"],
             nu=None if case["nu"] is None else float(F(case["nu"])), eta0=float(F(case["eta0"])),
             run_linprog_step=case["linprog"])
         try:
-            ret = eg.fit(X, y, sensitive_features=sf)
+            with egreplay.recording() as events:
+                ret = eg.fit(X, y, sensitive_features=sf)
+                trace = [[e[0], list(e[1]) if e[0] == "h" else e[1]] for e in events]
         except ValueError as e:
             # diagnose the crash site (only to recognise finding F14 exactly): were all signed weights 0 in _call_oracle?
             zero = False
@@ -251,6 +291,12 @@ class CHECK(Check):
             out["lam_LP"] = [float(v) for v in eg.lambda_vecs_LP_[b].reindex(lam_eg.index).tolist()]
         else:
             out["lam_LP"] = None
+        # observables of the main loop (C08 extension): every multiplier column, the LP multipliers, the external-call trace
+        out["trace"] = trace
+        out["lam_cols_raw"] = [[float(v) for v in eg.lambda_vecs_EG_[t].reindex(lam_eg.index).tolist()]
+                               for t in eg.lambda_vecs_EG_.columns]
+        out["lam_lp_raw"] = {str(int(t)): [float(v) for v in eg.lambda_vecs_LP_[t].reindex(lam_eg.index).tolist()]
+                             for t in eg.lambda_vecs_LP_.columns}
         pmf = np.asarray(eg._pmf_predict(Xt))
         out["pmf1"] = [float(v) for v in pmf[:, 1]]
         out["pmf_rows_sum"] = [float(v) for v in pmf.sum(axis=1)]
@@ -312,6 +358,9 @@ class CHECK(Check):
         if case.get("sel"):
             gaps = [F(v) for v in case["sel"]["gaps"]]
             ls.append(f"saddle.select {proto.lst(gaps)} {proto.rat(F(case['sel']['nu']))} {len(gaps)}")
+        rp = loop_replay(case, o) if "trace" in o else None
+        if rp is not None:
+            ls.append(egreplay.loop_line(case, rp))     # always the LAST line of the case
         return ls
 
     @staticmethod
@@ -410,6 +459,30 @@ class CHECK(Check):
         if any(abs(a - b_) > 1e-9 for a, b_ in zip(mix, o["pmf1"])) or any(abs(s - 1) > 1e-9 for s in o["pmf_rows_sum"]):
             probs.append(Problem("property", f"_pmf_predict {o['pmf1']} is not the weights_-mixture of predictors_ {mix}",
                                  "C08.pmf"))
+        # -- the main loop: implementation vs documented algorithm on the recorded answers vs Lean state machine ------------
+        rp = loop_replay(case, o) if "trace" in o else None
+        if rp is None:
+            if "trace" in o:
+                probs.append(Problem("correspondence", f"the recorded external-call trace cannot be replayed: {o.get('_replay_error')}",
+                                     "C08.loop trace"))
+        else:
+            diffs = egreplay.compare_impl(case, loop_observables(case, o, P, H, errs), rp)
+            if diffs and not rp.fragile:
+                for rel, msg in diffs[:3]:
+                    probs.append(Problem("correspondence", msg, rel))
+            o["_loop_divergence_at_near_tie"] = bool(diffs and rp.fragile)
+            if mo:
+                got = egreplay.parse_loop(mo[-1])
+                mo = mo[:-1]
+                want = egreplay.replay_as_model(rp)
+                bad = [k for k in want if got.get(k) != want[k]] if ("stuck" not in got and "stuck" not in want) else \
+                    ([] if ("stuck" in got and "stuck" in want) else ["stuck"])
+                if bad:
+                    msg = (f"Lean loop model != exact replay in {bad}: model "
+                           f"{ {k: str(got.get(k))[:120] for k in bad[:3]} } replay { {k: str(want.get(k))[:120] for k in bad[:3]} }")
+                    ch = lifted_changes()
+                    probs.append(Problem("correspondence", msg + f"; lifted source fragment(s) changed: {ch}",
+                                         "C08.loop (lifted) " + ",".join(ch)) if ch else Problem("harness", msg))
         # -- model --------------------------------------------------------------------------------------------------
         if mo is not None:
             if case.get("sel") and mo:
@@ -491,4 +564,17 @@ class CHECK(Check):
                 mv = float(self._true_gap(P, errs, gams, Q, self._lams(P, o)[0][1], B)[5])
                 tags.append("constraint=violated" if mv > 1e-9 else "constraint=met")
             nontriv = len(o["predictors"]) > 1 or o["best_gap"] > 1e-9 or early
+            rp = loop_replay(case, o) if "trace" in o else None
+            if rp is not None and not rp.stuck:
+                tags.append("loop:returned=" + ("LP" if rp.from_lp[rp.best_iter] else "EG") + "-iterate")
+                tags.append("loop:LP-chosen-iterations=" + ("0" if not any(rp.from_lp) else "some" if not all(rp.from_lp[1:]) else "all"))
+                tags.append(f"loop:eta-shrinks={min(rp.shrinks, 3)}{'+' if rp.shrinks > 3 else ''}")
+                tags.append(f"loop:regret-checks={rp.checks}")
+                tags.append("loop:lp-cache-hit" if rp.cache_hits else "loop:lp-cache-miss-only")
+                tags.append("loop:stored-classifiers=" + ("1" if len(rp.hs) == 1 else "2-3" if len(rp.hs) <= 3 else "4+"))
+                tags.append("loop:oracle-answers-not-stored=" + ("0" if rp.calls == len(rp.hs) else "some"))
+                tags.append("loop:" + ("near-tie:" + "|".join(rp.fragile) if rp.fragile else "no-near-tie"))
+                if o.get("_loop_divergence_at_near_tie"):
+                    tags.append("loop:divergence-at-near-tie(not compared)")
+                tags.append("loop:" + ("break" if rp.done else "max_iter"))
         return (repr(sorted((k, str(v)) for k, v in case.items())), nontriv, tags)
